@@ -546,7 +546,8 @@ def spellings(draw, nmans, bodies=("Earth", "Earth", "Earth", "Earth", "Moon"), 
                 mans_as=draw(st.sampled_from(["list", "tuple", "single"])),
                 clone=draw(st.sampled_from(["none", "none", "copy", "pickle"])),
                 method=draw(st.sampled_from(methods)), form0=draw(st.sampled_from(["cartesian", "keplerian", "equinoctial"])),
-                stop_as=draw(st.sampled_from(["date", "timedelta"])), body=draw(st.sampled_from(bodies)))
+                stop_as=draw(st.sampled_from(["date", "timedelta"])), body=draw(st.sampled_from(bodies)),
+                together=draw(st.sampled_from(["alone", "alone", "zip", "shared-propagator", "appended-later", "warm"])))
 
 
 def epoch_of(case, sp):
@@ -600,6 +601,7 @@ def spelling_classes(sp):
            f"form0:{sp['form0']}", f"stop_as:{sp['stop_as']}"]
     if sp["clone"] != "none":
         out.append(f"clone:{sp['clone']}")
+    out.append(f"together:{sp.get('together', 'alone')}")
     out += [f"dv_as:{x}" for x in sp["dv_as"]] + [f"man_scale:{x}" for x in sp["man_scales"]]
     return out
 
@@ -646,8 +648,30 @@ def run_library(c0, d0, h_us, n, mans, sp=None):
         stop = timedelta(microseconds=h_us * n)
     else:
         stop = relabel(d0 + timedelta(microseconds=h_us * n), sp.get("scale_stop"))
+    together = sp.get("together", "alone")
+    if together == "shared-propagator":
+        # another orbit, without maneuvers, served by the SAME propagator object, used before and in between
+        other = Orbit(sv.base * 1.0, start, sv.form, frame, orb.propagator)
+        list(other.iter(stop=stop))
+    elif together == "warm":
+        # the same request made once before (lazy construction, caches), result thrown away
+        list(orb.iter(stop=stop))
+    elif together == "appended-later" and len(mans) >= 2 and isinstance(orb.maneuvers, list):
+        # first asked with all maneuvers but the last, which the caller then appends in place to orb.maneuvers
+        last = orb.maneuvers.pop()
+        list(orb.iter(stop=stop))
+        orb.maneuvers.append(last)
+    if together == "zip":
+        # two iterations of one orbit alive together: both must give the run
+        pairs = list(zip(orb.iter(stop=stop), orb.iter(stop=stop)))
+        for k, (p, q) in enumerate(pairs):
+            if not np.array_equal(np.asarray(p.base, float), np.asarray(q.base, float)) or p.date != q.date:
+                raise Violation("iterators-interfere", f"two iterations of one orbit advanced together differ at point {k}")
+        stream = [p for p, _ in pairs]
+    else:
+        stream = orb.iter(stop=stop)
     out = []
-    for k, o in enumerate(orb.iter(stop=stop)):
+    for k, o in enumerate(stream):
         y = np.array(o.copy(form="cartesian").base, float)
         if not np.all(np.isfinite(y)):
             raise Violation("propagation-nonfinite", f"state {k} of the propagation with maneuvers is {y.tolist()}")
